@@ -1,73 +1,75 @@
 -------------------------------- MODULE Table --------------------------------
-\* Design model of DataTable as an object that is built by editing calls and
-\* then written and read back.  One action per public call with its
-\* documented refusals (raise = nothing changes); the invariants are the
-\* shape rules of the object and the C17 round trip for every reachable table
-\* inside the statement's quantifier.
+\* Design model of DataTable as a state machine: every public member of
+\* DataTable.h is an action (constructors, the four cell-access overloads for
+\* reading and writing, names, has / get / add / delete / set for rows and
+\* columns by index and by name, copy / assign, write, read with header on/off
+\* and rowNames >= 0) whose outcome is ok or raise:<documented class> and whose
+\* post-state is given by TableDefs!Sem / ReadSem.  Invariants: shape of the
+\* object (names unique, every row has ncol cells, name vectors empty or of the
+\* right length), RaiseKeeps (a refused call changes nothing), and the C17
+\* round trip from every reachable table inside the statement's quantifier.
 EXTENDS TableDefs, TLC
 
 CONSTANTS MaxCol, MaxRow,      \* bounds explored by TLC
           CellVals, NameVals,  \* model values (sets of code sequences)
-          Seps                 \* separators tried by the round trip
+          Seps                 \* separators tried by write / read
 
-VARIABLES T, out
+VARIABLES T,      \* the table
+          out     \* outcome of the last call: "init", "ok" or "raise" (values and classes are bound by trace validation)
 vars == <<T, out>>
 
-Empty(nc) == [ncol |-> nc, nrow |-> 0, cols |-> <<>>, rows |-> <<>>, cells |-> <<>>]
-Res(k, P) == [k |-> k, t |-> P]
-Init == T = Empty(0) /\ out = Res("init", NoTable)
+Init == T = NewTable(0, 0, <<>>) /\ out = "init"
 
-Raise == out' = Res("raise", NoTable) /\ UNCHANGED T
-Ok(T2) == out' = Res("ok", NoTable) /\ T' = T2
+\* one call: ok with the definitional post-state, or one of the documented refusals and no change
+Call(op, a) ==
+  LET S == Sem(op, a, T) IN
+  IF S.refuse = {}
+  THEN T' = S.post /\ out' = "ok"
+  ELSE out' = "raise" /\ UNCHANGED T
 
-New(nc) == Ok(Empty(nc))
-
-SetColNames(ns) == IF ~Distinct(ns) \/ Len(ns) # T.ncol THEN Raise ELSE Ok([T EXCEPT !.cols = ns])
-SetRowNames(ns) == IF ~Distinct(ns) \/ Len(ns) # T.nrow THEN Raise ELSE Ok([T EXCEPT !.rows = ns])
-
-AddRow(r) == IF T.rows # <<>> \/ Len(r) # T.ncol THEN Raise
-             ELSE Ok([T EXCEPT !.cells = Append(@, r), !.nrow = @ + 1])
-AddRowNamed(n, r) ==
-  IF (T.rows = <<>> /\ T.nrow # 0) \/ Len(r) # T.ncol \/ n \in Range(T.rows) THEN Raise
-  ELSE Ok([T EXCEPT !.cells = Append(@, r), !.nrow = @ + 1, !.rows = Append(@, n)])
-
-AddColumn(c) == IF T.cols # <<>> \/ Len(c) # T.nrow THEN Raise
-                ELSE Ok([T EXCEPT !.cells = [i \in 1..T.nrow |-> Append(T.cells[i], c[i])], !.ncol = @ + 1])
-AddColumnNamed(n, c) ==
-  IF (T.cols = <<>> /\ T.ncol # 0) \/ Len(c) # T.nrow \/ n \in Range(T.cols) THEN Raise
-  ELSE Ok([T EXCEPT !.cells = [i \in 1..T.nrow |-> Append(T.cells[i], c[i])], !.ncol = @ + 1, !.cols = Append(@, n)])
-
-Without(s, i) == SubSeq(s, 1, i - 1) \o SubSeq(s, i + 1, Len(s))
-DeleteRow(i) == IF i \notin 1..T.nrow THEN Raise
-                ELSE Ok([T EXCEPT !.cells = Without(@, i), !.nrow = @ - 1,
-                                   !.rows = IF @ = <<>> THEN <<>> ELSE Without(@, i)])
-DeleteColumn(j) == IF j \notin 1..T.ncol THEN Raise
-                   ELSE Ok([T EXCEPT !.cells = [i \in 1..T.nrow |-> Without(T.cells[i], j)], !.ncol = @ - 1,
-                                      !.cols = IF @ = <<>> THEN <<>> ELSE Without(@, j)])
-SetCell(i, j, v) == IF i \notin 1..T.nrow \/ j \notin 1..T.ncol THEN Raise
-                    ELSE Ok([T EXCEPT !.cells[i][j] = v])
-
-\* write then read: the object is not modified; the result is the table read back
-WriteRead(sep, align) ==
-  /\ InQuantifier(T, sep)
-  /\ out' = Res("read", ParseTable(RenderTable(T, sep, align), sep, T.cols # <<>>)) /\ UNCHANGED T
+ReadCall(sep, align, header, rn) ==
+  LET S == ReadSem(RenderTable(T, sep, align), sep, header, rn) IN
+  /\ S.decided
+  /\ IF S.refuse = {} THEN T' = S.post /\ out' = "ok"
+     ELSE out' = "raise" /\ UNCHANGED T
 
 SeqsOf(S, n) == [1..n -> S]
+Vecs == UNION {SeqsOf(CellVals, n) : n \in 0..(IF MaxRow > MaxCol THEN MaxRow ELSE MaxCol)}
+NameLists == UNION {SeqsOf(NameVals, n) : n \in 0..(IF MaxRow > MaxCol THEN MaxRow ELSE MaxCol)}
+Idx == 0..(IF MaxRow > MaxCol THEN MaxRow ELSE MaxCol)
+Small == /\ T.ncol <= MaxCol /\ T.nrow <= MaxRow
+         /\ \A i \in DOMAIN T.cells : \A j \in DOMAIN T.cells[i] : T.cells[i][j] \in CellVals \cup {<<>>}
+         /\ Range(T.cols) \subseteq NameVals /\ Range(T.rows) \subseteq NameVals
+
 Next ==
-  \/ \E nc \in 0..MaxCol : New(nc)
-  \/ \E ns \in SeqsOf(NameVals, T.ncol) \cup SeqsOf(NameVals, 1) : SetColNames(ns)
-  \/ \E ns \in SeqsOf(NameVals, T.nrow) \cup SeqsOf(NameVals, 1) : SetRowNames(ns)
-  \/ T.nrow < MaxRow /\ \E r \in SeqsOf(CellVals, T.ncol) \cup SeqsOf(CellVals, 1) : AddRow(r) \/ \E n \in NameVals : AddRowNamed(n, r)
-  \/ T.ncol < MaxCol /\ \E c \in SeqsOf(CellVals, T.nrow) \cup SeqsOf(CellVals, 1) : AddColumn(c) \/ \E n \in NameVals : AddColumnNamed(n, c)
-  \/ \E i \in 1..(MaxRow + 1) : DeleteRow(i)
-  \/ \E j \in 1..(MaxCol + 1) : DeleteColumn(j)
-  \/ \E i \in 1..MaxRow, j \in 1..MaxCol, v \in CellVals : SetCell(i, j, v)
-  \/ \E sep \in Seps, align \in BOOLEAN : WriteRead(sep, align)
+  \/ \E nr \in 0..MaxRow, nc \in 0..MaxCol : Call("new_rc", [nr |-> nr, nc |-> nc]) \/ Call("new_c", [nc |-> nc])
+  \/ \E nr \in 0..MaxRow, ns \in NameLists : Call("new_rnames", [nr |-> nr, names |-> ns]) \/ Call("new_names", [names |-> ns])
+  \/ Call("copy", <<>>)
+  \/ \E i, j \in Idx, v \in CellVals : Call("get_ii", [i |-> i, j |-> j]) \/ Call("set_ii", [i |-> i, j |-> j, v |-> v])
+  \/ \E rn, cn \in NameVals, v \in CellVals : Call("get_nn", [rn |-> rn, cn |-> cn]) \/ Call("set_nn", [rn |-> rn, cn |-> cn, v |-> v])
+  \/ \E rn \in NameVals, j \in Idx, v \in CellVals : Call("get_ni", [rn |-> rn, j |-> j]) \/ Call("set_ni", [rn |-> rn, j |-> j, v |-> v])
+  \/ \E i \in Idx, cn \in NameVals, v \in CellVals : Call("get_in", [i |-> i, cn |-> cn]) \/ Call("set_in", [i |-> i, cn |-> cn, v |-> v])
+  \/ \E ns \in NameLists : Call("setColNames", [names |-> ns]) \/ Call("setRowNames", [names |-> ns])
+  \/ \E op \in {"getColNames", "hasColNames", "getRowNames", "hasRowNames", "ncols", "nrows"} : Call(op, <<>>)
+  \/ \E i \in Idx : \E op \in {"getColName", "getCol_i", "delCol_i", "getRowName", "getRow_i", "delRow_i"} : Call(op, [i |-> i])
+  \/ \E n \in NameVals : \E op \in {"getCol_n", "hasCol", "delCol_n", "hasRow", "getRow_n", "delRow_n"} : Call(op, [name |-> n])
+  \/ \E i \in Idx, n \in NameVals : Call("setRowName", [i |-> i, name |-> n])
+  \/ T.ncol < MaxCol /\ \E v \in Vecs : Call("addCol", [vec |-> v]) \/ \E n \in NameVals : Call("addCol_n", [name |-> n, vec |-> v])
+  \/ T.nrow < MaxRow /\ \E v \in Vecs : Call("addRow", [vec |-> v]) \/ \E n \in NameVals : Call("addRow_n", [name |-> n, vec |-> v])
+  \/ \E i \in Idx, v \in Vecs : Call("setRow", [i |-> i, vec |-> v])
+  \/ \E sep \in Seps, al \in BOOLEAN : Call("write", [sep |-> sep, align |-> al])
+  \/ \E sep \in Seps, al, h \in BOOLEAN, rn \in -1..MaxCol : ReadCall(sep, al, h, rn)
 Spec == Init /\ [][Next]_vars
 
-\* the property
+\* the properties
 Shape == WellFormed(T)
 RoundTripInv == \A sep \in Seps : \A align \in BOOLEAN : RoundTrip(T, sep, align)
-ReadBack == out.k = "read" => Same(out.t, T)
-RaiseKeeps == [][out'.k = "raise" => T' = T]_vars
+RaiseKeeps == [][out' = "raise" => T' = T]_vars
+\* queries and write are pure (Sem gives them post = T); spot-checked on every reachable table
+QueriesPure == \A op \in {"getColNames", "hasColNames", "getRowNames", "hasRowNames", "ncols", "nrows"} : Sem(op, <<>>, T).post = T
+\* reading back what was written, with the header flag the table calls for, gives the table again
+ReadBackInv == \A sep \in Seps : \A align \in BOOLEAN :
+                 InQuantifier(T, sep) =>
+                   LET S == ReadSem(RenderTable(T, sep, align), sep, T.cols # <<>>, -1) IN S.decided /\ S.refuse = {} /\ S.post = T
+Bounded == Small
 =============================================================================
